@@ -188,6 +188,12 @@ bool Exec::edit_invalid(Obj &o, const Fault &f) {
 			if (what == "addrow") { w = "addrow:badcol"; rv = mpq_QSadd_row(p, 1, ind, (const mpq_t *)t.at(3), (const mpq_t *)t.at(0), 'L', nm.c_str()); }
 			else { w = "addrows:second-badcol"; int rc[2] = {0, 1}, rb[2] = {0, 0}; QArr rh(2); char ss[2] = {'L', 'G'}; std::string n0 = strf("inva%d", step), n1 = strf("invb%d", step); const char *nms[2] = {n0.c_str(), n1.c_str()}; rv = mpq_QSadd_rows(p, 2, rc, rb, ind, (const mpq_t *)t.at(3), (const mpq_t *)rh.p(), ss, nms); } }
 		else { T("  skip"); return false; }
+	} else if ((what == "delrows" || what == "delnamedrows") && m > 0 && modn(v / 7, 3) == 2) {
+		int i = modn(v, m); w = what + ":duplicate";
+		if (what == "delrows") { int l[2] = {i, i}; rv = mpq_QSdelete_rows(p, 2, l); } else { const char *l[2] = {M.rows[i].name.c_str(), M.rows[i].name.c_str()}; rv = mpq_QSdelete_named_rows_list(p, 2, l); }
+	} else if ((what == "delcols" || what == "delnamedcols") && n > 0 && modn(v / 7, 3) == 2) {
+		int j = modn(v, n); w = what + ":duplicate";
+		if (what == "delcols") { int l[2] = {j, j}; rv = mpq_QSdelete_cols(p, 2, l); } else { const char *l[2] = {M.cols[j].name.c_str(), M.cols[j].name.c_str()}; rv = mpq_QSdelete_named_columns_list(p, 2, l); }
 	} else if (what == "delrow" || what == "delrows" || what == "delsetrows") { if (!row_is_bad(badr)) { T("  skip"); return false; }
 		if (what == "delrow") { w = "delrow:badindex"; rv = mpq_QSdelete_row(p, badr); } else { w = "delrows:one-bad"; int l[2] = {0, badr}; rv = m > 0 ? mpq_QSdelete_rows(p, 2, l) : mpq_QSdelete_rows(p, 1, l + 1); }
 	} else if (what == "delnamedrow" || what == "delnamedrows") { w = what + ":unknown"; std::string nm = strf("nosuchrow%d", step);
